@@ -333,6 +333,19 @@ func (r *Adaptation) VerifServe(l net.Listener) error {
 					s = rs
 					nselects += nsel
 				}
+				if n == "services.go" {
+					// one more scheduling point: a handler has returned its reply object, the reply is not yet
+					// marshalled (same goroutine, no synchronisation operation in between in the shipped code)
+					old := "\tresp, err := s.unaryInterceptor(ctx, unmarshal, info, method)\n"
+					if !strings.Contains(s, old) {
+						die("ttrpc services.go: unaryCall handler invocation not found")
+					}
+					s = strings.Replace(s, old, old+"\tsimorder.Yield(\"ttrpc/services.go:handler-returned\")\n", 1)
+					if !strings.Contains(s, "\"nrisim/simorder\"") {
+						s = strings.Replace(s, "\nimport (", "\nimport (\n\t\"nrisim/simorder\"", 1)
+					}
+					nyields++
+				}
 			}
 			if err := os.WriteFile(filepath.Join(dst, n), []byte(s), 0o644); err != nil {
 				die("%v", err)
